@@ -72,6 +72,10 @@ func (c pairCfg) config() *Config {
 
 func newPairFromConfigs(cconf, sconf *Config) (*Session, *Session, error, error) {
 	cc, sc := socketPair()
+	return newPairFromConns(cconf, sconf, cc, sc)
+}
+
+func newPairFromConns(cconf, sconf *Config, cc, sc net.Conn) (*Session, *Session, error, error) {
 	type res struct {
 		s   *Session
 		err error
